@@ -498,5 +498,19 @@ def replay(acc, w):
         scale = max(abs(radial.dU(r)), abs(radial.dU(r + hh)), abs(radial.dU(max(r - hh, 1e-300)))) * x["speed"] + 1e-300
         if abs(got - want) > 1e-6 * scale:
             acc.violation(w["key"], f"replayed: derivative {got!r}, gradient of the independent energy {want!r}", x)
+    elif x.get("kind") == "merged_origin":
+        from vf.jf import init_setting
+        L = x["L"]
+        init_setting(3, [L] * 3, cubic=True)
+        from jellyfysh.potential.merged_image_coulomb_potential import MergedImageCoulombPotential
+        s = [fh(v) for v in x["s"]]
+        r = math.sqrt(sum(c * c for c in s))
+        vel = [0.0] * 3
+        vel[x["d"]] = 1.0
+        q = x["pref"] * x["c"][0] * x["c"][1]
+        got = MergedImageCoulombPotential(prefactor=x["pref"]).derivative(vel, list(s), *x["c"])
+        want = q * s[x["d"]] / r ** 3
+        if not abs(got - want) <= 1e-9 * abs(q) / r ** 2 + 10.0 * abs(q) * r / L ** 3:
+            acc.violation(w["key"], f"replayed: derivative {got!r}, pair term {want!r}", x)
     else:
         acc.notes.append("replay: re-run the check with the recorded seed")
